@@ -480,6 +480,9 @@ func (ck *Check) lemmaTexts(x *Exec, names []string) map[string]string {
 		t := x.trBool(env, lm.Body)
 		out[n] = t.S
 		if lm.Axiom {
+			// an axiom about heap-reading specification functions holds for every
+			// heap, not only for the entry heap it was written down in
+			out[n] = generaliseHeaps(t.S, st.heaps)
 			ck.assume["axiom "+n+": "+lm.Src] = true
 		}
 		if lm.DataFact {
@@ -804,4 +807,27 @@ func (ck *Check) inventory() {
 	for _, n := range trustedBody {
 		ck.assume["body not under the safety sweep: "+n] = true
 	}
+}
+
+// generaliseHeaps closes a formula over the heap constants it mentions.
+func generaliseHeaps(text string, heaps map[string]Term) string {
+	var binds []string
+	i := 0
+	for _, k := range sortedKeys(heaps) {
+		h := heaps[k]
+		re := regexp.MustCompile(`(^|[^A-Za-z0-9_!|])` + regexp.QuoteMeta(h.S) + `($|[^A-Za-z0-9_!|])`)
+		if !re.MatchString(text) {
+			continue
+		}
+		v := fmt.Sprintf("hq!%d", i)
+		i++
+		for re.MatchString(text) {
+			text = re.ReplaceAllString(text, "${1}"+v+"${2}")
+		}
+		binds = append(binds, fmt.Sprintf("(%s %s)", v, h.Sort))
+	}
+	if len(binds) == 0 {
+		return text
+	}
+	return "(forall (" + strings.Join(binds, " ") + ") " + text + ")"
 }
